@@ -48,6 +48,15 @@ def main():
     try:
         patch = os.path.join(mdir, "patch.diff")
         rc, out = sh(["git", "-C", wt, "apply", patch])
+        if rc != 0:  # context moved by a later fix: commit in /repo: retry with reduced context, keep the rebased patch
+            rc, out = sh(["git", "-C", wt, "apply", "-C1", "--recount", patch])
+            if rc == 0:
+                rebased = sh(["git", "-C", wt, "diff"])[1]
+                patch = os.path.join(mdir, "patch.rebased.diff")
+                open(patch, "w").write(rebased)
+                sh(["git", "-C", wt, "checkout", "--", "."])
+                rc, out = sh(["git", "-C", wt, "apply", patch])
+                result["rebased"] = True
         result["applies"] = rc == 0
         if rc != 0:
             result["error"] = out[-800:]
@@ -106,7 +115,7 @@ def main():
 def finish(result, mdir, name, wt):
     out = os.path.join(VERIF, "seeded", name)
     os.makedirs(out, exist_ok=True)
-    for f in ("patch.diff", "demo_test.go"):
+    for f in ("patch.diff", "patch.rebased.diff", "demo_test.go"):
         if os.path.exists(os.path.join(mdir, f)):
             shutil.copy(os.path.join(mdir, f), os.path.join(out, f))
     json.dump(result, open(os.path.join(out, "meta.json"), "w"), indent=1)
